@@ -47,3 +47,46 @@ def run(ctx):
             ctx.violation("%s returned a trajectory that is not well-formed" % rep["entry"],
                           dict(rep, full=out["full"], times=req["times"][:40], cols=[c[:40] for c in req["cols"]],
                                kind=req["kind"], extinct=req["extinct"]))
+    wide_range_weights(ctx)
+
+
+def wide_range_weights(ctx):
+    """unbounded horizon, positive recovery rates spanning ~14 orders of magnitude (a few "chronic carriers"): the run
+    must still end with no infected node; counts conserved, times ordered.  Real (seeded) generators; weights are
+    exact powers of two so the running totals of the event sets are exact in double precision."""
+    import random
+    import networkx as nx, numpy as np, EoN
+    for k in range(ctx.scale(24, 120)):
+        seed = ctx.rng.randrange(10 ** 9)
+        n = ctx.rng.randint(4, 14)
+        G = nx.gnp_random_graph(n, 0.5, seed=seed)
+        slow = ctx.rng.sample(list(G), ctx.rng.randint(1, 3))
+        tiny = 2.0 ** -ctx.rng.choice([44, 47, 50])
+        for u in G:
+            G.nodes[u]["r"] = tiny if u in slow else 1.0
+        for e in G.edges():
+            G.edges[e]["w"] = ctx.rng.choice([1.0, 2.0, tiny])
+        sim = ["Gillespie_SIR", "fast_SIR"][k % 2]
+        kw = dict(recovery_weight="r")
+        if k % 4 >= 2:
+            kw["transmission_weight"] = "w"
+        infs = ctx.rng.sample(list(G), ctx.rng.randint(1, 3))
+        rep = dict(entry=sim, stream="wide-range-weights", n=n, edges=list(map(list, G.edges())), slow=slow, tiny=tiny,
+                   weights=sorted(kw), infs=infs, seed=seed, tmax="inf")
+        ctx.case(rep, nontrivial=True)
+        ctx.count("wide-range:" + sim)
+        random.seed(seed); np.random.seed(seed % 2 ** 32)
+        try:
+            t, S, I, R = getattr(EoN, sim)(G, 1.0, 1.0, initial_infecteds=infs, tmax=float("inf"), **kw)
+        except Exception as e:
+            ctx.violation("%s raised %s on an unbounded run with wide-range weights" % (sim, type(e).__name__), dict(rep, error=type(e).__name__))
+            continue
+        bad = []
+        if I[-1] != 0:
+            bad.append("run with unbounded horizon and positive recovery rates ends with %d infected node(s)" % I[-1])
+        if any(s + i + r != n for s, i, r in zip(S, I, R)):
+            bad.append("counts do not sum to N")
+        if any(b < a for a, b in zip(t, t[1:])) or not all(np.isfinite(t)):
+            bad.append("times decrease / are not finite")
+        if bad:
+            ctx.violation("%s: %s" % (sim, "; ".join(bad)), dict(rep, final=[int(S[-1]), int(I[-1]), int(R[-1])], rows=len(t)))
